@@ -6,7 +6,7 @@ mutual
 /-- the part of `representable` the stack-machine proof needs: an element with a void name has no children -/
 def voidOk (p : PCfg) : Node → Bool
   | .str _ _ => true
-  | .tag i kids => (!p.voidTags.contains (fullName i) || kids.isEmpty) && voidOkL p kids
+  | .tag i kids => (!p.isVoid (fullName i) || kids.isEmpty) && voidOkL p kids
 def voidOkL (p : PCfg) : List Node → Bool
   | [] => true
   | n :: ns => voidOk p n && voidOkL p ns
@@ -72,7 +72,7 @@ theorem soupEnd_top (p : PCfg) (nm : PStr) (at' : List (PStr × AVal)) (ks : Lis
 
 /-- start tag of a non-void name: pending text is flushed, a frame is pushed -/
 theorem step_start_nonvoid (p : PCfg) (top : Frame) (rest : List Frame) (b cl : List PStr) (nm : PStr)
-    (attrs : List (PStr × Option PStr)) (hv : p.voidTags.contains nm = false) :
+    (attrs : List (PStr × Option PStr)) (hv : p.isVoid nm = false) :
     step p ⟨top :: rest, b, cl⟩ (.start nm attrs) =
       ⟨⟨nm, buildAttrs p nm attrs, []⟩ :: { top with kids := top.kids ++ txt p (ctxOf p (top :: rest)) b } :: rest, [], cl⟩ := by
   simp only [step, soupStart, flush_eq, hv, Bool.false_eq_true, ↓reduceIte]
@@ -97,7 +97,7 @@ theorem step_startend (p : PCfg) (top : Frame) (rest : List Frame) (b : List PSt
 /-- `<br></br>`: the start tag of a void name closes the element at once and lists the name, the end tag only
     takes the name off the list -/
 theorem step_void_pair (p : PCfg) (top : Frame) (rest : List Frame) (b : List PStr) (nm : PStr)
-    (attrs : List (PStr × Option PStr)) (hv : p.voidTags.contains nm = true) :
+    (attrs : List (PStr × Option PStr)) (hv : p.isVoid nm = true) :
     step p (step p ⟨top :: rest, b, []⟩ (.start nm attrs)) (.stop nm) =
       ⟨{ top with kids := top.kids ++ txt p (ctxOf p (top :: rest)) b ++
           [closeFrame p ⟨nm, buildAttrs p nm attrs, []⟩] } :: rest, [], []⟩ := by
@@ -152,7 +152,7 @@ theorem run_node (p : PCfg) (f : Fmt) : ∀ (d : Node) (top : Frame) (rest : Lis
       simp only [he, if_true, run_cons, run_nil, step_startend]
       simp [absorb, txt_nil, closeFrame, normAttrs, List.append_assoc]
     · simp only [he]
-      by_cases hv : p.voidTags.contains (fullName i) = true
+      by_cases hv : p.isVoid (fullName i) = true
       · -- `<br></br>`: no children
         have hks : ks = [] := by
           have := h.1
@@ -165,7 +165,7 @@ theorem run_node (p : PCfg) (f : Fmt) : ∀ (d : Node) (top : Frame) (rest : Lis
         rw [step_void_pair p top rest b _ _ hv]
         simp [absorb, txt_nil, closeFrame, normAttrs, List.append_assoc]
       · -- `<x> … </x>`
-        have hv' : p.voidTags.contains (fullName i) = false := by simpa using hv
+        have hv' : p.isVoid (fullName i) = false := by simpa using hv
         simp only [Bool.false_eq_true, if_false, run_cons, run_append, run_nil]
         rw [step_start_nonvoid p top rest b [] _ _ hv']
         rw [run_forest p f ks _ _ [] h.2]
